@@ -591,6 +591,22 @@ REG['Seq33'] = Seq33
       "Framed33": lambda ch, u: u.bytes(2) + _rec33(ch, u) + _b(u.byte()),
       "Seq33": lambda ch, u: (lambda k: _b(k) + b"".join(_rec33(ch, u) for _ in range(k)))(ch.draw("k", 3))})
 
+# 34  embed=True (the docs call it experimental): the embedded Ref is not set by unpack on the pinned tree; whatever an
+#     implementation decides to put there must not be an object shared between packets
+decl("embedded", """
+class Pt34(Packet):
+    __bisturi__ = OPT
+    x = Int(1)
+    y = Int(1)
+
+class P34(Packet):
+    __bisturi__ = OPT
+    point_2d = Ref(Pt34(x=1, y=2), embed=True)
+    z = Int(1)
+REG['Pt34'] = Pt34
+REG['P34'] = P34
+""", {"P34": lambda ch, u: u.bytes(3)})
+
 
 BY_NAME = {d["name"]: d for d in POOL}
 
